@@ -27,10 +27,12 @@ import (
 const c09TickBudget = 5e8
 
 type c09Env struct {
-	Cwd string `json:"cwd,omitempty"`
-	Out string `json:"out,omitempty"`
-	Pkg bool   `json:"pkg,omitempty"` // pass -p <module>/<cwd>
-	Pre string `json:"pre,omitempty"` // "" fresh | other | debris | file
+	Via  string `json:"via,omitempty"`  // "symlink": cwd entered through a symbolic link
+	GDir string `json:"gdir,omitempty"` // where the grammar file lives relative to cwd (see engine.Spec.GrammarDir)
+	Cwd  string `json:"cwd,omitempty"`
+	Out  string `json:"out,omitempty"`
+	Pkg  bool   `json:"pkg,omitempty"` // pass -p <module>/<cwd>
+	Pre  string `json:"pre,omitempty"` // "" fresh | other | debris | file
 }
 
 type c09Plan struct {
@@ -51,7 +53,7 @@ type c09Case struct {
 }
 
 func (cs *c09Case) key() string {
-	return cs.gc.ID + "|" + strings.Join(cs.flags, ",") + "|" + cs.env.Cwd + "|" + cs.env.Out + "|" + fmt.Sprint(cs.env.Pkg) + "|" + cs.env.Pre
+	return cs.gc.ID + "|" + strings.Join(cs.flags, ",") + "|" + cs.env.Cwd + "|" + cs.env.Out + "|" + fmt.Sprint(cs.env.Pkg) + "|" + cs.env.Pre + "|" + cs.env.GDir + "|" + cs.env.Via
 }
 
 var allFlags = []string{"-a", "-zip", "-no_lexer", "-debug_lexer", "-debug_parser", "-v"}
@@ -71,7 +73,7 @@ func flagSubsets() [][]string {
 }
 
 func c09Spec(gc *GrammarCase, flags []string, env c09Env) engine.Spec {
-	s := engine.Spec{GrammarID: gc.ID, GrammarFile: gc.File, Flags: flags, Cwd: env.Cwd, OutSpec: env.Out}
+	s := engine.Spec{GrammarID: gc.ID, GrammarFile: gc.File, Flags: flags, Cwd: env.Cwd, OutSpec: env.Out, GrammarDir: env.GDir, CwdVia: env.Via}
 	pkgPath := engine.ModuleName
 	if env.Cwd != "" {
 		pkgPath += "/" + env.Cwd
@@ -438,7 +440,10 @@ func RunC09(c *Ctx) error {
 	// ---- configurations ----
 	envs := []c09Env{{}, {Out: "out"}, {Out: "out/deeper"}, {Out: "ABS:gen"}, {Pkg: true}, {Cwd: "a/b"}, {Cwd: "a/b", Out: "sub"}, {Cwd: "a/b", Pkg: true},
 		// legal but unclean spellings of the same places
-		{Out: "ABS:gen/"}, {Cwd: "a/b", Out: "ABS:./gen"}, {Out: "./out/"}, {Cwd: "a/b", Out: "x/../sub"}, {Out: "ABS:gen//deep"}}
+		{Out: "ABS:gen/"}, {Cwd: "a/b", Out: "ABS:./gen"}, {Out: "./out/"}, {Cwd: "a/b", Out: "x/../sub"}, {Out: "ABS:gen//deep"},
+		// the grammar file somewhere else than the working directory
+		{Via: "symlink"}, {Via: "symlink", Cwd: "a/b", Out: "sub"},
+		{GDir: "src/grammar"}, {Cwd: "a/b", GDir: ".."}, {GDir: "ABS:src", Out: "out"}, {Cwd: "a/b", GDir: "../../top", Pkg: true}}
 	pres := []string{"", "other", "debris", "file", "corrupt", "debris-other"}
 	quickFlags := [][]string{{}, {"-zip"}, {"-v", "-a"}, {"-no_lexer"}, {"-debug_lexer", "-debug_parser"}, {"-zip", "-no_lexer", "-v"}}
 	var cfgs []*c09Case
